@@ -15,7 +15,7 @@ ENGINES = {
 SIM = "deterministic simulation with fault injection: seeded schedule/fault search over the real %s driven by simulated actors, %s"
 CHECKS = {
  "C01": ("adsr", "5.1", SIM % ("Adsr", "per-tick range/monotonicity/plateau/curve-fidelity oracles following the observed phase"),
-         "Seeded search (24k runs quick, 600k thorough, incl. one-fault-per-tick-offset sweeps) over gate/tick/set_input interleavings, sample rates and times; every tick of every run is checked against the documented RC curve stretched between the latched start level and the target. Sampling, not proof; deviations inside the 0.5% fidelity tolerance are invisible."),
+         "Seeded search (160k runs quick, 3M thorough, incl. one-fault-per-tick-offset sweeps, unobserved stretches and a 2^32-tick marathon in the thorough tier) over gate/tick/set_input interleavings, sample rates and times; every tick of every run is checked against the documented RC curve stretched between the latched start level and the target. Sampling, not proof; deviations inside the 0.5% fidelity tolerance are invisible."),
  "C02": ("adsr", "5.1", SIM % ("Adsr", "refinement of a phase state machine with an ideal-progress window per timed phase"),
          "Every observed transition is validated against the statement's relation and every timed phase against the never-early / late-only-by-counter-resolution window, including times changed in mid-phase and phases shorter than a tick."),
  "C03": ("adsr", "5.1", SIM % ("Adsr", "adjacent-tick step bound (steepest slope x phase fraction + sustain change)"),
@@ -29,7 +29,7 @@ CHECKS = {
  "C07": ("quant", "5.3", SIM % ("Quantizer", "scale-mask model; pitch class of every conversion checked against the scale at the time of the call"),
          "Seeded convert/allow/forbid/restart histories in all octaves incl. edit-between-equal-inputs; the mask model applies the documented forbid rule and is compared with is_allowed() after every edit."),
  "C09": ("quant", "5.3", SIM % ("Quantizer", "window rule + fresh restarted twin for the memoryless case + ramp/noise scenario oracles"),
-         "Inside the widened bucket of a still-allowed previous note the note must not change; otherwise it must equal what a fresh real quantizer with the same scale reports. Inputs within 3 uV of a window edge are counted, not asserted."),
+         "Inside the widened bucket of a still-allowed previous note the note must not change; otherwise it must equal what a fresh real quantizer with the same scale reports. Inputs within 10 uV of a window edge are counted, not asserted."),
  "C10": ("lfo", "5.4", SIM % ("Lfo", "closed-form waveform invariant at every phase reached, phase read back exactly from the up-saw"),
          "State invariant over the phases that tick/set_frequency/set_phase/reset histories reach; thorough tier adds full-cycle runs at increment 1-3 and reports the measured number of distinct 256-count phase buckets visited."),
  "C11": ("lfo", "5.4", SIM % ("Lfo", "per-tick advance window modulo one cycle, constancy between set_frequency calls, reset/set_phase postconditions"),
@@ -38,23 +38,23 @@ CHECKS = {
          "Slow increments (1..64) are started shortly before the wrap and before table-cell boundaries in every tier; bound 2*pi*1.002*step+2ulp for the sine, 4*step for the triangle."),
  "C13": ("glide", "5.5", SIM % ("GlideProcessor", "input-hull invariant, sign-stable monotone approach, bounded settling after 3t+16 samples"),
          "Tolerance = 8*2^-24*max|x|/(1-p) as derived in DESIGN.md; set_time at any sample index incl. switching to <2 samples while far from the target."),
- "C14": ("glide", "5.5", SIM % ("GlideProcessor", "step-response landmarks + bit-exact lock-step twins for the 0.05 s dead band and the 10 s ceiling"),
-         "Landmarks (40-55% at t/10, >=99.5% at t) after settled holds for t*fs>=100; fastest response must settle in 8 samples; twins receive only honoured calls / min(t,10) and must match bit for bit."),
+ "C14": ("glide", "5.5", SIM % ("GlideProcessor", "step-response landmarks over the set of times that may be in effect + lock-step twins for the 0.05 s rule and the 10 s ceiling"),
+         "Landmarks (40-55% around t/10, >=99.5% from t on) after settled holds for t*fs>=100, evaluated for every time that may be in effect (a request inside the 0.05 s band may be ignored or honoured; one outside must be honoured); fastest response must have covered 99.5% within 8 samples; twins receive exactly the calls the rule obliges to honour / min(t,10) and must match up to the f32 resolution of the filter until the first in-band request of a trace."),
  "C15": ("ribbon", "5.6", SIM % ("RibbonController<N>", "run-length press model and edge-latch model, polls anywhere, single-out-of-range-sample sweeps"),
-         "Capture length is measured on a fresh controller and bounded by the statement; pressing must equal (unbroken run >= capture length) after every sample for 14 sample rates / capacities."),
- "C16": ("ribbon", "5.6", SIM % ("RibbonController<N>", "f64 windowed-mean reference + bit-exact perturbation twins (fresh-press, newest-samples, raised-sample)"),
-         "Value compared with the corrected f64 mean of the capture window (1e-4) and its min/max; twins show independence from earlier presses and from the excluded newest samples, and monotonicity."),
+         "Capture length is measured on a fresh controller and bounded by the statement; pressing must equal (unbroken run >= capture length) after every sample for 22 sample rates / capacities; the edge getters may behave as a flag or as a counter of unread changes."),
+ "C16": ("ribbon", "5.6", SIM % ("RibbonController<N>", "f64 windowed-mean reference + perturbation twins (fresh-press, newest-samples, raised-sample) compared up to summation rounding"),
+         "Value compared with the corrected f64 mean of the capture window (tolerance derived from f32 summation of the window) and its min/max; twins show independence from earlier presses and from the excluded newest samples, and monotonicity."),
  "C17": ("all six", "5.7", "deterministic simulation with fault injection: chaos profile of all six engines in an overflow-checks + debug-assertions build, panic capture per event, hang watchdog, bounded-liveness oracle for envelopes",
          "Legal extremes of every argument in arbitrary call order; a panic inside a call into the code under test is the violation (replayable trace), a hang is caught by a 60 s watchdog, envelope phases must end within 2.5x the counter range."),
- "C18": ("midi", "5.2", SIM % ("MonoMidiReceiver", "controller routing model per message + recorded-history monotonicity/end-point checks"),
+ "C18": ("midi", "5.2", SIM % ("MonoMidiReceiver", "controller routing model per message + recorded-history monotonicity/end-point checks (pitch bend: anchors, order against every value seen, one output per value)"),
          "All 128 controller numbers x values and pitch-bend values are drawn with a bias to routed numbers and their neighbours; evidence reports how many distinct (controller,value) pairs and bend values were delivered."),
  "C19": ("quant", "5.3", SIM % ("Quantizer", "per-conversion record invariants on both return paths"),
-         "stairstep == note/12 bit-exactly; stairstep+fraction reproduces the input within 2 ulp; fraction ranges on the hysteresis path and on restarted chromatic quantizers. One open known finding (sub-5uV negative fraction) is reported as KNOWN-FINDING, anything else is a violation."),
+         "stairstep == note/12 (within 2 ulp, exact at the octaves); stairstep+fraction reproduces the input within 2 ulp; fraction ranges on the hysteresis path and on restarted chromatic quantizers. One open known finding (sub-5uV negative fraction) is reported as KNOWN-FINDING, anything else is a violation."),
 }
 
 NOT_APPLICABLE = [
  {"property_id": "C08", "reason": "pure function of (scale, input) on a quantizer with no history: no schedule, clock, fault or interleaving enters the statement; deciding it is input enumeration (4095 scales x microvolt grid), not simulation. Its sequence consequence (notes never decrease on a rising input) is checked under C09."},
- {"property_id": "C20", "reason": "pure function of one f32/u8 argument quantified over all bit patterns; the right tool is an exhaustive sweep or a proof, not this technique. Out-of-range parameters are injected as a fault kind in the C01/C02/C04/C07 simulations, but C20 itself is not claimed."},
+ {"property_id": "C20", "reason": "pure function of one f32/u8 argument quantified over all bit patterns; the right tool is an exhaustive sweep or a proof, not this technique. Out-of-range parameters are still injected as a fault kind (envelope times and levels, whose clamping C02 itself states; scale note numbers, whose meaning the model takes from the crate's own conversion; channel arguments only in the no-panic profile), but C20 itself is not claimed and no C20 fact is assumed by another property's model."},
 ]
 
 def main():
